@@ -276,7 +276,7 @@ func checkC02(p *core.Program, r *core.Report) {
 	if T, _, _ := circuitTypeOf(p, "SetupDeletion"); T != nil {
 		if ps := provingSystemType(p); ps != nil {
 			for _, fn := range p.RepoFuncs() {
-				if fn.Signature.Recv() == nil || namedOf(fn.Signature.Recv().Type()) != ps || fn.Signature.Results().Len() != 2 || delegateTarget(fn) != nil || requestParamIndex(fn) < 0 {
+				if fn.Signature.Recv() == nil || namedOf(fn.Signature.Recv().Type()) != ps || fn.Signature.Results().Len() != 2 || (delegateTarget(fn) != nil || composesProvers(fn)) || requestParamIndex(fn) < 0 {
 					continue
 				}
 				if wt := witnessCircuitType(fn); wt != nil && wt == T {
